@@ -351,11 +351,12 @@ class Check:
             "tie_breaks": len(self.tie_breaks),
             **self.extra,
         }
+        placeholder = bool(proof.get("theorems")) and all("placeholder" in t for t in proof.get("theorems", []))
         ev = {
             "property_id": self.pid,
             "tier": self.tier,
             "seed": self.seed,
-            "level": "proof",
+            "level": "exploration" if placeholder else "proof",
             "coverage": cov,
             "assumptions": self.assumptions,
             "wall_s": round(wall, 2),
